@@ -72,18 +72,23 @@ CLAIMED = {
    "DESIGN.md §6 C14",
    "textual equality of generated code; Lean kernel for the optimizer equality; differential on mutated real grammars.",
    "regeneration equality + kernel-checked optimizer equality on the regenerated grammar + four-way differential"),
- "C18": ("other",
-   "RFC 8259's ABNF is transcribed into an executable Lean recogniser that also builds the document tree (PestModel.Json.jsonText); json.pest is REGENERATED into a Lean value on every run and its reference denotation must coincide with the RFC transcription; JsonParser is compared with both (acceptance and full token tree with byte spans) EXHAUSTIVELY on all strings up to a length bound over a JSON-heavy alphabet, on near-misses and on generated documents, with a second independent RFC recogniser in Rust as oracle. The equivalence theorem (grammar denotation = RFC for all strings) is being attempted; until it lands the level is other.",
+ "C18": ("proof",
+   "RFC 8259's ABNF is transcribed into an executable Lean recogniser that also builds the document tree (PestModel.Json.jsonText, written without looking at json.pest); json.pest is REGENERATED into a Lean value on every run and the kernel checks, for ALL strings of every length and nesting depth: json_sound (whatever the grammar accepts from rule json is an RFC 8259 text and the pairs are exactly the RFC document tree with its byte spans), json_complete (every RFC text is accepted with that tree), json_rejects (rejection is definite), via json_iff and the layer theorems ws_iff / number_iff / string_iff / value_iff. The real JsonParser is tied to both by an EXHAUSTIVE differential on all strings up to a length bound over a JSON-heavy alphabet, near-misses and generated documents (acceptance and full token tree), with a second independent RFC recogniser in Rust as oracle.",
    "DESIGN.md §6 C18",
-   "two independent transcriptions of the ABNF (Lean, Rust); exhaustive-to-length differential; regenerated grammar.",
-   "Lean 4 RFC 8259 transcription + reference denotation of the regenerated grammar + exhaustive-to-length differential against JsonParser"),
+   "Lean kernel; axioms propext/Classical.choice/Quot.sound only; grammar regenerated by translator tr_grammar; reference denotation (C01) as the meaning of the grammar; JsonParser tied by differential (C02's generated-code tie is separate).",
+   "Lean 4 proof that the reference denotation of the regenerated json.pest equals the RFC 8259 transcription + exhaustive-to-length differential against JsonParser"),
+ "C17": ("other",
+   "Lean 4 labelled transition system of the debugger protocol (parser thread: flag check, breakpoint-set lookup, send, park, cancellation check, final send, flag store; controller: run = flag/unpark/join/spawn, cont, add/delete breakpoint, recv; bounded FIFO channel, one park token), quantified over every schedule and command history (Reach); theorems: sent_eq_expected (the breakpoint events are exactly the entries of the parse whose rule was in the set when checked, in order), received_prefix (FIFO, lossless), final_event (the plain parse's outcome, after all of them, nothing after), one_per_continue, quiet_while_waiting, abort_isDone, restart_terminates_partial (a restart issued with an empty channel and no outstanding wake-up makes the previous thread exit in finitely many non-blocking steps) and restart_deadlock_with_early_continue (the unrestricted statement is false: recorded known finding). Tie: the REAL threads are forced step by step along the schedules the model resolves (hook H4 turnstile, child process per case, hangs observed by a watchdog) — random cases plus every resolution of the first 8/13 decisions of small restart histories — and labels passed, events, return values and blocked state must coincide; a model-free oracle checks the event sequence and that clean restarts return. One genuine deadlock was fixed (cdede9e). Level other: the parse is abstracted to its measured entry list, and real timing/memory-model behaviour between hook points is outside the model.",
+   "DESIGN.md §6 C17",
+   "Lean kernel for the protocol model; forced-schedule correspondence on real threads (hook H4); park assumed non-spurious; runs with a blocking send judged by the oracle only.",
+   "Lean 4 LTS of the protocol with invariants over all schedules + forced-schedule correspondence on the real threads"),
  "C09": ("other",
    "Totality of the Rust front-end cannot be proved by a model of it, so it is sampled hard: tens of thousands of mutated real grammars (delimiters, escapes, numeric edge values, non-scalar \\u{…}, non-ASCII, truncations) go through parse_and_optimize and docs::consume in child processes where a panic, abort or time-out is an observation attributed to its text; every error must carry a location inside the text and render. The Lean side covers the modelled panic sites of the back half (unrollF_total: unroll cannot panic on the counts the reader lets through; optimize on the regenerated grammars is kernel-evaluated in C14). One genuine defect was fixed (expect/unwrap on non-scalar escapes and PEEK indices) and one is recorded (native stack overflow on very deep nesting).",
    "DESIGN.md §6 C09",
    "sampling in child processes; partial by nature (DESIGN §6 C09); repetition counts bounded as the property states.",
    "child-process totality sampling on mutated grammars + Lean 4 lemmas on modelled panic sites"),
  "C07": ("other",
-   "Round trip on the implementation: random abstract rule sets are written in pest syntax with a random LEGAL spelling (only the parentheses precedence requires, arbitrary spacing, block/line/doc comments, leading |, per-character escape forms, leading-zero counts) and must read back as the same rules (oracle: the abstract grammar), in two builds (default, grammar-extras). Lean side: a model of unescape, the number parsers and the operator-precedence stage (C13's Pratt parser with the reader's table), with theorems unescape_spell, unescape_unicode_none, count_roundtrip, index_roundtrip, pratt_rebuilds (being proved), tied by a correspondence on thousands of literal bodies through the real reader vs the Lean reader (reference denotation of the REGENERATED meta-grammar + unescape model). read_print for arbitrary spacing is only sampled: partial.",
+   "Round trip on the implementation: random abstract rule sets are written in pest syntax with a random LEGAL spelling (only the parentheses precedence requires, arbitrary spacing, block/line/doc comments, leading |, per-character escape forms, leading-zero counts) and must read back as the same rules (oracle: the abstract grammar), in two builds (default, grammar-extras). Lean side: a model of unescape, the number parsers and the operator-precedence stage (C13's Pratt parser with the reader's table), with kernel-checked theorems unescape_spell, unescape_unicode_none, count_roundtrip, index_roundtrip, pratt_rebuilds, tied by a correspondence on thousands of literal bodies through the real reader vs the Lean reader (reference denotation of the REGENERATED meta-grammar + unescape model). read_print for arbitrary spacing is only sampled: partial.",
    "DESIGN.md §6 C07",
    "round trip sampling with the abstract grammar as oracle; Lean kernel for the proved parts; regenerated meta-grammar.",
    "print/read round trip with random spellings + Lean 4 theorems on unescape / numbers / precedence stage"),
@@ -98,7 +103,7 @@ REASON_TODO = "not claimed yet: machinery for this property is not built in the 
 def main():
     checks = []
     for pid in ALL:
-        if pid not in CLAIMED:
+        if pid not in CLAIMED or pid in PENDING:
             continue
         cat, text, ref, note, tech = CLAIMED[pid]
         checks.append({
@@ -125,16 +130,17 @@ def main():
         "engines": [{
             "name": "lean4-model+correspondence",
             "path": "/verif/lean, /verif/harness, /verif/check",
-            "serves_properties": sorted(CLAIMED),
+            "serves_properties": sorted(p for p in CLAIMED if p not in PENDING),
             "kind_free_text": "Lean 4 models + kernel-checked theorems (lake build, #print axioms audit), tied to /repo on every run by translators (regenerated Lean data) and by a line-protocol correspondence between the real Rust code and the compiled Lean model (pestmodel)",
         }],
         "checks": checks,
-        "not_applicable": [{"property_id": p, "reason": REASON_TODO} for p in ALL if p not in CLAIMED],
+        "not_applicable": [{"property_id": p, "reason": REASON_TODO} for p in ALL if p not in CLAIMED or p in PENDING],
         "notes": "Every check rebuilds the harness from /repo's working tree (path dependencies) and the Lean project from /verif/lean; replay files are written to /verif/replay. See DESIGN.md.",
     }
     json.dump(m, open(os.path.join(V, "MANIFEST.json"), "w"), indent=1)
     open(os.path.join(V, "MANIFEST.json"), "a").write("\n")
 
-HOOK_COMMITS = ["3f989e6", "590f51d"]
+PENDING = {"C17"}   # machinery built; claimed once the proofs are in the tree
+HOOK_COMMITS = ["3f989e6", "590f51d", "a066eba", "0b6d328", "fdfdd20", "4c10484"]
 if __name__ == "__main__":
     main()
